@@ -75,7 +75,7 @@ def gen_programs(ctx, n, salt):
         ns = rg.naming_shadow(p, r)
         out.append(("gen-shadow", rg.single(pre + rg.Render(ns).program(p), std)))
         for ss, k, b, lv in rg.plant_violations(p, r, 2):
-            ss.insert(k, ("print", ("var", b)))
+            ss.insert(k, rg.planted_node(p, ss, b, nd))
             out.append(("gen-planted", rg.single(pre + rg.Render(nd).program(p), std)))
             ss.pop(k)
         if hasattr(rg, "layouts"):
@@ -88,6 +88,14 @@ def gen_programs(ctx, n, salt):
         out.append(("gen-self-shadow", rg.single(rg.self_shadow_program(
             ci, ii, r.choice(["total", "bumped"]), r.choice(["local", "param", "global"]), r.random() < 0.5), True)))
         out.append(("gen-self-use", rg.single(rg.self_use_program(ci, ii, r.random() < 0.5), True)))
+    # block expressions that initialise module globals (see oracle_stream): all shadow variants and a sample of
+    # the out-of-scope uses
+    r = vlib.rng(ctx.seed, salt + "-ginit")
+    for ci in range(len(rg.GINIT_CTX)):
+        for nm in ["fresh"] + rg.GINIT_NAMES:
+            out.append(("gen-global-init-block", rg.single(rg.EXT_PRINT + rg.ginit_shadow_program(ci, nm, r.random() < 0.5), False)))
+        out.append(("gen-global-init-use", rg.single(rg.EXT_PRINT + rg.ginit_use_program(
+            ci, r.choice(["@BEFORE", "@OTHER", "@GLOBAL", "@START"]), r.random() < 0.5), False)))
     # re-export projects in every module order (accepted: chain, aliases, diamond, cycle; rejected: missing name,
     # collision): the import pass of the model against the real one, first error included
     for i in range(min(n, 24) if ctx.tier == "quick" else n // 10):
@@ -271,6 +279,19 @@ def oracle_stream(ctx, n, salt):
             for mut in (True, False):
                 items.append({"kind": "src-reject", "cls": "use-in-own-initialiser", "leak": False,
                               "files": {"/main.sy": rg.self_use_program(ci, ii, mut)}})
+    # locals of block expressions (if / elif / else / case arm / case else, nested, with closures, not at the root of
+    # the initialiser) that initialise a MODULE GLOBAL: naming the local freshly, like the global it reads, like
+    # another global or like the global being defined must give the same Lua; a use of it before its definition, in
+    # another branch, in another global or in `start` must be rejected.  All of it, always.
+    for ci in range(len(rg.GINIT_CTX)):
+        for mut in (True, False):
+            for nm in rg.GINIT_NAMES:
+                items.append({"kind": "files-pair", "cls": "global-init-block", "leak": False,
+                              "a": {"/main.sy": rg.ginit_shadow_program(ci, "fresh", mut)},
+                              "b": {"/main.sy": rg.ginit_shadow_program(ci, nm, mut)}})
+            for probe in ("@BEFORE", "@OTHER", "@GLOBAL", "@START"):
+                items.append({"kind": "src-reject", "cls": "use-outside-global-init-block", "leak": False,
+                              "files": {"/main.sy": rg.ginit_use_program(ci, probe, mut)}})
     return items
 
 
@@ -281,7 +302,7 @@ def render_item(it):
         return [rg.single(rg.Render(it["na"]).program(p), True), rg.single(rg.Render(it["nb"]).program(p), True)]
     if it["kind"] == "planted":
         ss, k, b = it["at"]
-        ss.insert(k, ("print", ("var", b)))
+        ss.insert(k, rg.planted_node(it["p"], ss, b, it["na"]))
         try:
             return [rg.single(rg.Render(it["na"]).program(it["p"]), True)]
         finally:
@@ -401,7 +422,12 @@ def always(ctx):
                            "outside its scope or before its declaration must be rejected; (c) parameter named like an "
                            "imported namespace used in field position; (d) `x := f(x)` with an outer x (also with a function literal in "
                            "argument position, arrow calls) named like the outer variable vs freshly -> identical Lua, and "
-                           "the same initialisers with no outer variable -> rejected"}
+                           "the same initialisers with no outer variable -> rejected; (e) the generated programs contain if / case "
+                           "EXPRESSIONS whose branches declare locals and closures -- in particular as initialisers of module "
+                           "globals, nested, not at the root -- so (a) and (b) cover them (planted uses also between the items "
+                           "of the module, as a further global); plus the hand-written family of such initialisers: local named "
+                           "freshly vs like the global it reads / another global / the global being defined -> identical Lua, "
+                           "use before the definition / in another branch / in another global / in start -> rejected"}
 
 
 def describe(it, v):
@@ -428,8 +454,14 @@ def search(ctx):
               if v is not None and (classify(it) is None or classify(it) not in opened)]
         if not un:
             return None
-    # prefer an unexplained class, then the smallest program
-    un.sort(key=lambda x: (x[2] is not None, len(render_item(x[0])[0])))
+    # prefer an unexplained class, then the most telling verdict (accepted with different Lua, accepted vs
+    # rejected, ...), then the smallest program
+    def cat(v):
+        return (v or "").split(" (")[0]
+    rank = {"the two consistent renamings compile to different Lua": 0,
+            "a use of a variable outside its scope / before its declaration is accepted": 0,
+            "one renaming is accepted, the other rejected": 1}
+    un.sort(key=lambda x: (x[2] is not None, rank.get(cat(x[1]), 2), len(render_item(x[0])[0])))
     it, v, c = un[0]
     if it["kind"] in ("pair", "planted"):
         p = it["p"]
@@ -443,7 +475,9 @@ def search(ctx):
                     if k > len(ss):
                         return False
                 vv, _, _ = run_oracle(ctx, [it])
-                return vv[0] is not None
+                # the same kind of violation, not just any (a shrunk program that merely stops type-checking
+                # under one naming says little)
+                return vv[0] is not None and cat(vv[0]) == cat(v)
             except Exception:
                 return False
         if it["kind"] == "planted":
